@@ -4,7 +4,8 @@ C04), hints and unevaluated format constraints are NEUTRAL (class defaults)."""
 import z3
 
 from contracts.rc_transformer import CANDS, node
-from pyvc.contracts import DictOf, Inst, Str, contract
+from pyvc.contracts import DictOf, Inst, Raw, SeqOf, Str, contract
+from pyvc.values import Opaque
 
 T = "ahbicht.condition_node_builder:ConditionNodeBuilder."
 
@@ -20,9 +21,22 @@ def leaf_nodes():
 @contract(T + "requirement_content_evaluation_for_all_condition_keys", prop=["C04", "C12"])
 class AllConditionKeys:
     """modular view: a mapping from keys to well-formed leaf nodes, or whatever the user-supplied evaluators raise"""
-    params = dict(self=Inst("ConditionNodeBuilder"))
-    raises = {"Exception": None, "NotImplementedError": None}
+    params = dict(self=Inst("ConditionNodeBuilder", token_logic_provider=Raw(lambda ex, st, n: Opaque("inst:TokenLogicProvider")),
+                            requirement_constraints_condition_keys=SeqOf(lambda ex, st, n, i: Str().make(ex, st, n)),
+                            hints_condition_keys=SeqOf(lambda ex, st, n, i: Str().make(ex, st, n)),
+                            format_constraints_condition_keys=SeqOf(lambda ex, st, n, i: Str().make(ex, st, n))))
+    raises = {"Exception": None, "NotImplementedError": None, "KeyError": None}
     returns = leaf_nodes()
+
+    def post_union_of_the_three_node_maps(self, result, ghost_BuildRcNodes_result, ghost_BuildHintNodes_result,
+                                          ghost_BuildUfcNodes_result):
+        """own body: the input nodes are exactly the union of the requirement-constraint, hint and format-constraint
+        node maps (their key ranges are disjoint: C18)"""
+        return all(k in result for k in ghost_BuildRcNodes_result.keys()) \
+            and all(k in result for k in ghost_BuildHintNodes_result.keys()) \
+            and all(k in result for k in ghost_BuildUfcNodes_result.keys()) \
+            and all(k in ghost_BuildRcNodes_result or k in ghost_BuildHintNodes_result or k in ghost_BuildUfcNodes_result
+                    for k in result.keys())
 
 
 @contract(T + "__init__", prop=["C04"])
